@@ -8,7 +8,7 @@
 
 Exit codes: 0 property held on everything explored (KNOWN-FINDING lines possible), 1 VIOLATION, 2 harness/build failure.
 """
-import argparse, array, hashlib, json, os, shutil, subprocess, sys, time, zlib
+import argparse, array, hashlib, json, os, re, shutil, subprocess, sys, time, zlib
 from concurrent.futures import ThreadPoolExecutor
 
 ROOT = os.path.dirname(os.path.abspath(__file__))
